@@ -29,10 +29,17 @@ pub struct ExSocketAddr(std::net::SocketAddr);
 #[verifier::external_type_specification]
 #[verifier::external_body]
 pub struct ExEmpty(std::io::Empty);
-#[verifier::external_type_specification]
+// R19: Cursor<Vec<u8>> as a local opaque reader type
 #[verifier::external_body]
-#[verifier::reject_recursive_types(T)]
-pub struct ExCursor<T>(std::io::Cursor<T>);
+pub struct VerifCursor { c: std::io::Cursor<Vec<u8>> }
+#[verifier::external] impl Read for VerifCursor { fn read(&mut self, buf: &mut [u8]) -> io::Result<usize> { unimplemented!() } }
+impl ReadSpecImpl for VerifCursor {
+    open spec fn stream(&self) -> Seq<u8> { Seq::empty() }
+    open spec fn failed(&self) -> bool { false }
+    open spec fn release(&self) -> Seq<u8> { Seq::empty() }
+    open spec fn drained(&self) -> Seq<u8> { Seq::empty() }
+    open spec fn owns_source(&self) -> bool { false }
+}
 
 // Write with a ghost identity: wchan() = the finish channel behind this writer.  Writing through a
 // writer never changes which channel it will signal (ASSUMED for every Write impl: true for
